@@ -50,6 +50,10 @@ func convertReflectValueToType(rv reflect.Value, rt reflect.Type) (reflect.Value
 			return convertVMFunctionToType(rv, rt)
 		case reflect.Ptr:
 			// both rv and rt are pointers, convert what they are pointing to
+			if rv.IsNil() {
+				// return nil of correct type
+				return reflect.Zero(rt), nil
+			}
 			value, err := convertReflectValueToType(rv.Elem(), rt.Elem())
 			if err != nil {
 				return rv, err
